@@ -22,7 +22,7 @@ man = {
     "setup_cmd": "true",
     "hooks": cfg["hooks"],
     "engines": [{"name": "vx", "path": "/verif/vx", "serves_properties": sorted(cfg["properties"]),
-                 "kind_free_text": "extracts the real functions from /repo's working tree, applies logged rewrite rules, weaves contracts from /verif/units/*.vrs and discharges every obligation with Verus (single-file mode); Kani/CBMC only for labelled bounded stand-ins and cross-checks of assumed dependency contracts"}],
+                 "kind_free_text": "extracts the real functions from /repo's working tree, applies logged rewrite rules, weaves contracts from /verif/units/*.vrs and discharges every obligation with Verus (single-file mode); a bounded differential replay of the real crate against an executable transcription of the spec (xcheck) supplies failing inputs and, like the Kani/CBMC harnesses, serves only as a labelled bounded stand-in"}],
     "checks": checks,
     "not_applicable": cfg["not_applicable"],
     "notes": cfg.get("notes", ""),
